@@ -7,6 +7,7 @@
     Gen/Tables.v on every run ([c12_cfg], [C12_source_constants]). *)
 From Coq Require Import ZArith List Bool String Ascii.
 From TM Require Import Node.Fs Node.Cache Node.CacheP Node.CacheCfg Gen.Tables.
+From TM Require Import Base.ShapeCanon.
 Import ListNotations.
 Open Scope Z_scope.
 
@@ -171,3 +172,10 @@ Proof.
   - intros a Ha. cbn in Ha. repeat (destruct Ha as [<-|Ha]; [vm_compute; reflexivity|]). contradiction.
   - vm_compute. repeat split.
 Qed.
+
+(** the functions named by this property's anchors still have the statement skeleton the model was written from
+    (re-extracted from the Python AST on every run, harness/tables_shape.py + harness/shape_pins.json; kept last so that
+    a difference does not stop the theorems above from being checked) *)
+Theorem C12_source_shape : shapes_ok_C12 = true.
+Proof. vm_compute. reflexivity. Qed.
+Print Assumptions C12_source_shape.
